@@ -54,6 +54,17 @@ Theorem C09_scrape :
 Proof. exact gen_scrape. Qed.
 Print Assumptions C09_scrape.
 
+(* The per-URL work of the two processors (WebProcessorSession.process: robots.txt check, request
+   loop with redirects, download, response handling, link extraction; FTPProcessorSession.process:
+   parent listing, file or listing download, permissions, listing links): NO exception that a
+   server can cause leaves it - every one of the per-URL error kinds of the three theorems above
+   is caught by an except REMOTE_ERRORS frame inside, and nothing else is raised.  The worker that
+   called process() therefore goes on to the next URL. *)
+Theorem C09_process :
+  forall f c, In f entries_process -> ~ raises the_prog f c.
+Proof. exact gen_process. Qed.
+Print Assumptions C09_process.
+
 (* Non-vacuity.  (1) Each fetch entry point is a defined function that really has a raising
    execution, so [raises the_prog f c] is satisfiable in the three theorems above. *)
 Example C09_fetch_nonvacuous :
